@@ -367,6 +367,40 @@ TRUSTED_BASE = [
 ]
 
 
+class Hang(BaseException):
+    """raised in the main thread by time_limit(): the guarded operation did not return in time"""
+
+
+class time_limit:
+    """`with C.time_limit(seconds): ...` - SIGALRM-based guard for operations on the real code that a broken
+    implementation may turn into an endless loop; raises Hang (a BaseException, so `except Exception` in the code
+    under test does not swallow it). Main thread only; nests (the outer timer is restored on exit)."""
+
+    def __init__(self, seconds):
+        self.seconds = seconds
+
+    def __enter__(self):
+        import signal, threading
+        self.active = threading.current_thread() is threading.main_thread()
+        if self.active:
+            def on_alarm(signum, frame):
+                import traceback
+                raise Hang("no return within %ss; innermost frames:\n%s" % (self.seconds, "".join(traceback.format_stack(frame, limit=6))))
+            self.old_handler = signal.signal(signal.SIGALRM, on_alarm)
+            self.old_timer = signal.setitimer(signal.ITIMER_REAL, self.seconds)
+            self.t0 = time.time()
+        return self
+
+    def __exit__(self, *a):
+        import signal
+        if self.active:
+            signal.setitimer(signal.ITIMER_REAL, 0)
+            signal.signal(signal.SIGALRM, self.old_handler)
+            if self.old_timer[0] > 0:
+                signal.setitimer(signal.ITIMER_REAL, max(0.01, self.old_timer[0] - (time.time() - self.t0)))
+        return False
+
+
 def exc_enum(e):
     import struct, zlib
     if isinstance(e, (UnicodeEncodeError, UnicodeDecodeError, UnicodeError)):
